@@ -281,6 +281,7 @@ func checkC06(p *Program, r *Report) {
 		nStateful++
 		checkCarry(p, r, m)
 	}
+	checkDelegatedStates(p, r, models)
 	r.Floor("R06.1", "stateful kernels", nStateful, 17)
 	r.Floor("R06.3", "wrappers", nWrap, 41)
 	checkPackExtract(p, r, models)
@@ -1164,4 +1165,101 @@ func checkPackExtract(p *Program, r *Report, models []*Model) {
 		}
 	}
 	r.Floor("R06.4", "pack/extract pairs", n, 2)
+}
+
+
+// checkDelegatedStates (R06.5): when a kernel delegates to another registered kernel, the caller's state that is
+// passed in as the callee's state k must be the same state the callee's returned state k is handed back as.
+func checkDelegatedStates(p *Program, r *Report, models []*Model) {
+	r.Rule("R06.5", "state threading through delegation: where a kernel calls another catalogued kernel, the state argument it passes for the callee's state k and the state position at which it returns the callee's state result k are the same state of the caller")
+	byKernel := map[*ssa.Function]*Model{}
+	for _, m := range models {
+		if m.Kernel != nil && len(m.States) > 0 {
+			if byKernel[m.Kernel] == nil {
+				byKernel[m.Kernel] = m
+			}
+		}
+	}
+	n := 0
+	for _, m := range models {
+		k := m.Kernel
+		if k == nil || len(m.States) == 0 {
+			continue
+		}
+		nIn := len(m.Inputs)
+		stateOf := map[ssa.Value]int{}
+		for i := range m.States {
+			if nIn+i < len(k.Params) {
+				stateOf[k.Params[nIn+i]] = i
+			}
+		}
+		resBase := 0
+		if !m.OutputsAsParams {
+			resBase = len(m.Outputs)
+		}
+		for _, c := range callsIn(k) {
+			call, ok := c.(*ssa.Call)
+			if !ok {
+				continue
+			}
+			f := call.Common().StaticCallee()
+			cm := byKernel[f]
+			if cm == nil || f == k {
+				continue
+			}
+			cIn := len(cm.Inputs)
+			cResBase := 0
+			if !cm.OutputsAsParams {
+				cResBase = len(cm.Outputs)
+			}
+			for sk := range cm.States {
+				if cIn+sk >= len(call.Common().Args) {
+					continue
+				}
+				arg := call.Common().Args[cIn+sk]
+				a, isState := stateOf[origin1(arg)]
+				if !isState {
+					continue // derived or constant initial value: nothing to thread
+				}
+				// where does the callee's state result sk go?
+				var res ssa.Value
+				if f.Signature.Results().Len() == 1 && cResBase+sk == 0 {
+					res = call
+				} else {
+					for _, ref := range refs(call) {
+						if ex, ok := ref.(*ssa.Extract); ok && ex.Index == cResBase+sk {
+							res = ex
+						}
+					}
+				}
+				if res == nil {
+					continue
+				}
+				n++
+				key := fmt.Sprintf("%s.%s→%s:state#%d", m.RelPkg, k.Name(), f.Name(), sk)
+				bpos := -1
+				for _, ret := range returnsOf(k) {
+					for ri := range m.States {
+						if resBase+ri >= len(ret.Results) {
+							continue
+						}
+						for _, o := range origins(ret.Results[resBase+ri]) {
+							if o == res {
+								bpos = ri
+							}
+						}
+					}
+				}
+				switch {
+				case bpos < 0:
+					r.Fail("R06.5", key, p.Pos(call.Pos()), fmt.Sprintf("state `%s` is handed to %s as its `%s`, but the evolved value %s returns is not returned as any state of %s", m.States[a], f.Name(), cm.States[sk], f.Name(), k.Name()))
+				case bpos != a:
+					r.Fail("R06.5", key, p.Pos(call.Pos()), fmt.Sprintf("%s passes its state `%s` as %s's `%s` but returns the evolved value as its state `%s`: on this path `%s` never reaches the outputs or the next segment", k.Name(), m.States[a], f.Name(), cm.States[sk], m.States[bpos], m.States[bpos]))
+				default:
+					r.OK("R06.5", fmt.Sprintf("%s.%s: state `%s` threads through %s and back", m.RelPkg, k.Name(), m.States[a], f.Name()))
+				}
+			}
+		}
+	}
+	r.Analysed["R06.5 delegated state arguments"] = n
 }
